@@ -25,6 +25,8 @@ class Contract:
         self.level = 'P'
         self.no_model = set()   # callees that must be executed by body while verifying this one
         self.compare = None
+        self.call_model = None  # abstraction used at call sites instead of `model` (havoc + assume post)
+        self.witnesses = {}     # name -> fn(ctx, env0) formula: witness predicates of known findings
         self.note = ''
 
     # decorator helpers ------------------------------------------------------------
@@ -300,6 +302,7 @@ def verify_function(world, contract, max_paths=4000):
             out = Outcome('return', value)
         except Raised as r:
             out = Outcome('raise', exc=r.exc)
+            out.msg = r.msg
         out.env = env
         # --- outcome against model ---
         if expected is not None:
@@ -317,7 +320,8 @@ def verify_function(world, contract, max_paths=4000):
             if out.kind == 'raise':
                 cond = contract.raises.get(out.exc)
                 if cond is None:
-                    ctx.oblige('%s::raises.none[%s]' % (short, out.exc), False, info={'exc': out.exc})
+                    ctx.oblige('%s::raises.none[%s]' % (short, out.exc), False,
+                               info={'exc': out.exc, 'msg': str(getattr(out, 'msg', None))})
                 else:
                     ctx.oblige('%s::raises.only_if[%s]' % (short, out.exc), cond(ctx, env0))
             else:
@@ -334,10 +338,19 @@ def verify_function(world, contract, max_paths=4000):
             elif isinstance(origin, str) and origin.startswith('global:'):
                 ctx.oblige('%s::frame[%s]' % (short, origin), False, kind='frame', info={'write': desc})
         # --- property-level clauses ---
-        for name, fn in contract.posts:
-            r = fn(ctx, env0, env, out)
-            if r is not None:
-                ctx.oblige('%s::%s' % (short, name), r)
+        if out.kind == 'raise' and expected is None and not contract.raises and contract.posts:
+            pass    # already reported through ::raises.none
+        else:
+            for name, fn in contract.posts:
+                if out.kind == 'raise' and not getattr(fn, 'on_raise', False):
+                    continue
+                r = fn(ctx, env0, env, out)
+                if r is not None:
+                    ctx.oblige('%s::%s' % (short, name), r)
+        if contract.witnesses:
+            wit = {k: f(ctx, env0) for k, f in contract.witnesses.items()}
+            for ob in ctx.obligations:
+                ob.info.setdefault('witness', wit)
     return explore(world, runner, max_paths)
 
 
@@ -428,3 +441,12 @@ def discharge(ob, timeout_ms=10000, use_cvc5=False):
         except z3.Z3Exception:
             pass
     return Verdict(ob, 'undecided', solver='z3', time_s=time.time() - t0, reason=str(s.reason_unknown()))
+
+
+def run_lemma(ctx, lemma):
+    """A client lemma is a function(ctx) that builds symbolic values using the contracts' models
+    and records obligations with ctx.oblige / oblige_equal."""
+    from .nplib import PI_AXIOMS
+    for ax in PI_AXIOMS:
+        ctx.assume(ax)
+    lemma(ctx)
